@@ -27,6 +27,9 @@ def install(E):
             if op == 'sub' and isinstance(x, Ptr) and isinstance(y, Ptr):
                 if x.obj != y.obj: raise s.fail(st, 'ub', 'subtraction of pointers into different objects')
                 return binop(s, st, 'sub', x.off, y.off, w, flags)
+            if op == 'and' and isinstance(x, Ptr) and isinstance(y, int) and 0 <= y < 8: return 0    # alignment / virtual-bit test of a pointer (pointer-to-member call)
+            if op in ('add', 'sub') and isinstance(x, Ptr) and isinstance(y, (int, SV)):
+                return Ptr(x.obj, binop(s, st, op, x.off, y, 64, flags))
             raise EngineError('integer arithmetic on pointer value (%s)' % op)
         cx = isinstance(x, int); cy = isinstance(y, int)
         if cx and cy:
